@@ -311,7 +311,13 @@ inline int harnessMain(int argc, char** argv, const Harness& H) {
     ST.cases++;
     if (vd.discard) { ST.discards++; return; }
     ST.evaluations += vd.evals ? vd.evals : 1;
-    if (!vd.known.empty()) ST.known[vd.known]++;
+    if (!vd.known.empty()) {
+      // development aid: VERIF_DUMP_KNOWN=<prefix> keeps the first case of each known-finding class as <prefix>.<class>.json
+      if (ST.known[vd.known]++ == 0) if (const char* pfx = getenv("VERIF_DUMP_KNOWN")) {
+        std::string path = std::string(pfx) + "." + vd.known + ".json";
+        if (FILE* f = fopen(path.c_str(), "w")) { std::string r = rendered.empty() ? js::dump(caseToJson(c)) : rendered; fputs(r.c_str(), f); fclose(f); }
+      }
+    }
     if (vd.nontrivial) {
       ST.nontrivial++;
       std::string r = rendered.empty() ? js::dump(caseToJson(c)) : rendered;
